@@ -146,6 +146,26 @@ def write_replay(v):
     return path
 
 
+def serial_confirm(prop, tier, timeout=2400):
+    """Re-run the whole check of ``prop`` in one fresh single process (VERIF_SERIAL=1:
+    no pool, shard order as listed, first violation ends the run, evidence and replays go to
+    a scratch directory).  True iff that run reports a violation of the property."""
+    import shutil
+    import tempfile
+    tmp = tempfile.mkdtemp(prefix='verif-serial-', dir='/var/tmp')
+    env = dict(os.environ, VERIF_SERIAL='1', VERIF_NPROC='1', VERIF_SEED='0',
+               VERIF_EVIDENCE_DIR=tmp, VERIF_REPLAY_DIR=os.path.join(tmp, 'replays'))
+    try:
+        r = subprocess.run([PY, os.path.join(VERIF, 'mc', 'run.py'), prop, '--tier', tier],
+                           capture_output=True, text=True, env=env, timeout=timeout)
+        out = r.stdout + r.stderr
+        return (r.returncode == EXIT_VIOLATION and f'VIOLATION property={prop}' in out), out
+    except subprocess.TimeoutExpired:
+        return False, 'serial confirmation run timed out'
+    finally:
+        shutil.rmtree(tmp, ignore_errors=True)
+
+
 def confirm_replay(path):
     """Re-execute the case of a replay file in a fresh process.
     Returns True if the violation reproduces."""
@@ -214,6 +234,9 @@ def run_pool(result, modname, fn, shards, tier, budget_s=None, chunksize=1,
         for sh in shards:
             result.merge(_worker((modname, fn, sh, tier)))
             result.shards_done += 1
+            if os.environ.get('VERIF_SERIAL') == '1' and result.violations:
+                result.capped = True
+                break
             if budget_s and time.time() - t0 > budget_s:
                 result.capped = True
                 break
@@ -272,9 +295,24 @@ def finish(result, tier, level, rule, assumptions, t0, coverage_extra=None,
     real.sort(key=lambda v: len(json.dumps(v['case'])))
     confirmed = []
     harness_fail = None
+    serial = os.environ.get('VERIF_SERIAL') == '1'
     for v in real[:3]:
         path = write_replay(v)
+        if serial:          # one process, fixed shard order: deterministic by construction
+            confirmed.append((v, path))
+            continue
         ok, out = confirm_replay(path)
+        if not ok:
+            # The case alone (and the recorded history of its worker) does not show it: the
+            # library may keep process-global state, so that an answer depends on calls made
+            # on other objects before.  Deterministic schedule for that: the whole check in
+            # ONE process, shards in list order, stopped at the first violation.
+            ok, out2 = serial_confirm(prop, tier)
+            if ok:
+                v = dict(v, schedule='serial-whole-check', tier=tier)
+                path = write_replay(v)
+            else:
+                out += out2[-1500:]
         if ok:
             confirmed.append((v, path))
         else:
